@@ -100,3 +100,28 @@ func TestRegressC02_PortExhaustionE2E(t *testing.T) {
 		t.Fatalf("C02: after 16390 mappings through a symmetric NAT the LAN router no longer forwards: %s", s)
 	}
 }
+
+// C13-auto-ip-collides-with-static (fixed by cb059c7).
+func TestRegressC13_StaticThenAutomatic(t *testing.T) {
+	lf := quietLogger()
+	router, err := vnet.NewRouter(&vnet.RouterConfig{CIDR: "10.1.2.0/24", LoggerFactory: lf})
+	if err != nil {
+		t.Fatal(err)
+	}
+	a, _ := vnet.NewNet(&vnet.NetConfig{StaticIPs: []string{"10.1.2.1"}})
+	b, _ := vnet.NewNet(&vnet.NetConfig{})
+	if err = router.AddNet(a); err != nil {
+		t.Fatal(err)
+	}
+	if err = router.AddNet(b); err != nil {
+		t.Fatal(err)
+	}
+	ifc, _ := b.InterfaceByName("eth0")
+	addrs, _ := ifc.Addrs()
+	if len(addrs) != 1 {
+		t.Fatalf("automatic host has %d addresses", len(addrs))
+	}
+	if ip := addrs[0].(*net.IPNet).IP.String(); ip == "10.1.2.1" {
+		t.Fatalf("C13: the automatic host was assigned 10.1.2.1 which the static host already holds")
+	}
+}
